@@ -274,3 +274,144 @@ class InputFileRoundTrip(Contract):
 
 
 CONTRACTS = [InfRoundTrip, NoneRoundTrip, UuidRoundTrip, InputFileRoundTrip]
+
+
+# ------------------------------------------------------------------------------------------
+# set_enabled over concrete-shape ui.json dictionaries with symbolic switch values
+# ------------------------------------------------------------------------------------------
+
+
+class SetEnabled(Contract):
+    """set_enabled(ui_json, parameter, value), written from the ui.json documentation: an optional
+    parameter takes the new enabled state; when the parameter is the switch of its group (the first
+    member carrying `groupOptional`) every member of that group takes it; nothing else changes.
+    The dictionary has a concrete shape (which members exist) and symbolic member values."""
+    target = "geoh5py/ui_json/utils.py::set_enabled"
+    props = ("C14",)
+    bounded_scope = "ui.json dictionaries of 2-3 forms; per form: in group G or not, optional or not, groupOptional present or not, enabled present (symbolic) or absent; every target parameter (exhaustive over these shapes: 1792 cases); the enabled values and the new state are symbolic"
+
+    def cases(self):
+        per = [(g, o, go, en) for g in (False, True) for o in (False, True) for go in (False, True) for en in (False, True)]
+        out = []
+        for shape in itertools.product(per, repeat=2):
+            for target in range(2):
+                out.append((shape, target))
+        per3 = [(g, o, go, True) for g in (False, True) for o in (False, True) for go in (False, True)]
+        for shape in itertools.product(per3, repeat=3):
+            for target in range(3):
+                out.append((shape, target))
+        return out
+
+    def setup(self, ctx):
+        from pyvc.values import PDict
+
+        shape, target = ctx.case
+        ui = PDict()
+        before = {}
+        for i, (g, o, go, en) in enumerate(shape):
+            form = PDict({"label": f"p{i}", "value": 1.0})
+            if g:
+                form.items["group"] = "G"
+            if o:
+                form.items["optional"] = True
+            if go:
+                form.items["groupOptional"] = True
+            if en:
+                form.items["enabled"] = sym(f"enabled{i}", "bool")
+            before[f"p{i}"] = form.items.get("enabled")
+            ui.items[f"p{i}"] = form
+        value = sym("value", "bool")
+        ctx.env.update(ui=ui, before=before, value=value)
+        return [ui, f"p{target}", value], {}
+
+    def post(self, ctx, result):
+        e = ctx.env
+        shape, target = ctx.case
+        switch = next((i for i, (g, o, go, en) in enumerate(shape) if g and go), None)
+        tg, to, tgo, ten = shape[target]
+        for i, (g, o, go, en) in enumerate(shape):
+            now = e["ui"].items[f"p{i}"].items.get("enabled")
+            takes = (i == target and o) or (tg and switch == target and g)
+            if takes:
+                ctx.oblige(f"p{i}-takes-the-new-enabled-state", now is not None and to_z3(now) == e["value"].e,
+                           note=f"form p{i} should follow the switch p{target} but keeps enabled={now}")
+            else:
+                was = e["before"][f"p{i}"]
+                same = (now is None and was is None) or (now is not None and was is not None and to_z3(now) == to_z3(was))
+                ctx.oblige(f"p{i}-is-left-alone", same)
+
+    def post_raises(self, ctx, sig):
+        ctx.oblige("set_enabled-does-not-raise", False, kind="post-exc", note=f"{sig.exc_class.__name__} at {sig.origin}")
+
+
+CONTRACTS = CONTRACTS + [SetEnabled]
+
+
+class Flatten(Contract):
+    """flatten(ui_json): a disabled form yields None, an enabled one its `value` (or its `property`
+    when `isValue` is false); plain members pass through; nothing else appears."""
+    target = "geoh5py/ui_json/utils.py::flatten"
+    props = ("C14",)
+    bounded_scope = "dictionaries of two entries; per entry: plain member, or form with enabled present/absent x isValue present/absent (values symbolic) x property present; exhaustive over these shapes"
+
+    def cases(self):
+        per = ["plain"] + [("form", en, iv) for en in (False, True) for iv in (False, True)]
+        return list(itertools.product(per, repeat=2))
+
+    def setup(self, ctx):
+        from pyvc.values import PDict
+
+        ui = PDict()
+        spec = {}
+        for i, kind in enumerate(ctx.case):
+            name = f"p{i}"
+            if kind == "plain":
+                v = sym(f"plain{i}", "real")
+                ui.items[name] = v
+                spec[name] = ("plain", v)
+                continue
+            _, en, iv = kind
+            val, prop = sym(f"value{i}", "real"), sym(f"property{i}", "uid")
+            form = PDict({"label": name, "value": val, "property": prop})
+            e_, v_ = None, None
+            if en:
+                e_ = form.items["enabled"] = sym(f"enabled{i}", "bool")
+            if iv:
+                v_ = form.items["isValue"] = sym(f"isValue{i}", "bool")
+            ui.items[name] = form
+            spec[name] = ("form", e_, v_, val, prop)
+        ctx.env.update(ui=ui, spec=spec)
+        return [ui], {}
+
+    def post(self, ctx, result):
+        from pyvc.values import PDict
+
+        e = ctx.env
+        ok = isinstance(result, PDict) and list(result.items) == list(e["spec"])
+        ctx.oblige("one-entry-per-member-in-order", ok)
+        if not ok:
+            return
+        I = ctx.I
+        for name, sp in e["spec"].items():
+            got = result.items[name]
+            if sp[0] == "plain":
+                ctx.oblige(f"{name}-plain-member-passes-through", got is sp[1])
+                continue
+            _, en, iv, val, prop = sp
+            enabled = z3.BoolVal(True) if en is None else en.e
+            is_value = z3.BoolVal(True) if iv is None else iv.e
+            is_none = zbool(I.is_none(got))
+            ctx.oblige(f"{name}-is-None-iff-disabled", is_none == z3.Not(enabled))
+            if got is not None:
+                inner = got.value if hasattr(got, "present") else got
+                pres = got.present if hasattr(got, "present") else z3.BoolVal(True)
+                # the value is the `value` member when isValue, else the `property` member
+                if isinstance(inner, SV) and inner.k == "real":
+                    ctx.oblige(f"{name}-enabled-value-form-yields-its-value", z3.Implies(z3.And(enabled, pres), z3.And(is_value, inner.e == val.e)))
+                elif isinstance(inner, SV):
+                    ctx.oblige(f"{name}-enabled-property-form-yields-its-property", z3.Implies(z3.And(enabled, pres), z3.And(z3.Not(is_value), inner.e == prop.e)))
+                else:
+                    ctx.oblige(f"{name}-yields-value-or-property", False, note=f"unexpected result {type(inner).__name__}")
+
+
+CONTRACTS = CONTRACTS + [Flatten]
